@@ -196,17 +196,59 @@ def rule_mode_pairs(ctx: Ctx) -> RuleResult:
     if not list(calls_in(start, "signal_init")) or not list(calls_in(stop, "signal_restore")):
         rr.add(finding("PAIR", stop, stop.node, "_start/_stop no longer call signal_init()/signal_restore() as a pair", construct="signal_init/restore not paired"))
     set_sigs = {ast.unparse(c.args[0]) for c in calls_in(si, "signal_handler_setter") if c.args}
-    res_sigs = {ast.unparse(c.args[0]) for c in calls_in(sr, "signal_handler_setter") if c.args}
+
+    def restore_triples(fn):
+        """(signal, restored expression with the loop variable replaced by the saved attribute, call) for every
+        signal_handler_setter call, also when the calls are folded into a loop over a literal tuple of pairs"""
+        out = []
+        for c in calls_in(fn, "signal_handler_setter"):
+            if len(c.args) < 2:
+                continue
+            loop = next((l for l in ast.walk(fn.node) if isinstance(l, ast.For) and any(x is c for x in ast.walk(l)) and isinstance(l.iter, (ast.Tuple, ast.List)) and isinstance(l.target, ast.Tuple)), None)
+            if loop is None:
+                out.append((ast.unparse(c.args[0]), c.args[1], c))
+                continue
+            names = [t.id if isinstance(t, ast.Name) else None for t in loop.target.elts]
+            for row in loop.iter.elts:
+                if not isinstance(row, ast.Tuple) or len(row.elts) != len(names):
+                    continue
+                env = {nm: e for nm, e in zip(names, row.elts) if nm}
+
+                class Sub(ast.NodeTransformer):
+                    def visit_Name(self, n):
+                        return env.get(n.id, n)
+
+                import copy
+
+                sig = Sub().visit(copy.deepcopy(c.args[0]))
+                val = Sub().visit(copy.deepcopy(c.args[1]))
+                out.append((ast.unparse(sig), val, c))
+        return out
+
+    triples = restore_triples(sr)
+    res_sigs = {sig for sig, _v, _c in triples}
     for s in sorted(set_sigs):
         rr.inst(f"signal {s}", True, {"signal": s, "restored": s in res_sigs})
         if s not in res_sigs:
             rr.add(finding("PAIR", sr, sr.node, f"signal_init replaces the {s} handler but signal_restore does not restore it", construct=f"{s} not restored"))
-    # restore uses the value saved by init
+    # restore uses the value saved by init, whatever it was: only None / a false value may be replaced by SIG_DFL
     saved = {ast.unparse(n.targets[0]): ast.unparse(n.value.args[0]) for n in si.own_nodes() if isinstance(n, ast.Assign) and isinstance(n.value, ast.Call) and callee_name(n.value) == "signal_handler_setter" and n.value.args}
     for attr, sig in saved.items():
-        used = any(c.args and ast.unparse(c.args[0]) == sig and attr in ast.unparse(c.args[1]) for c in calls_in(sr, "signal_handler_setter") if len(c.args) > 1)
+        mine = [(v, c) for s_, v, c in triples if s_ == sig]
+        used = any(attr in ast.unparse(v) for v, _c in mine)
         if not used:
             rr.add(finding("PAIR", sr, sr.node, f"the previous {sig} handler saved in {attr} is not the one signal_restore reinstalls", construct=f"{sig} restored from wrong value"))
+            continue
+        for v, c in mine:
+            ok = ast.unparse(v) == attr
+            if isinstance(v, ast.BoolOp) and isinstance(v.op, ast.Or) and ast.unparse(v.values[0]) == attr:
+                ok = True
+            if isinstance(v, ast.IfExp) and ast.unparse(v.body) == attr:
+                t = ast.unparse(v.test)
+                ok = t in (attr, f"{attr} is not None", f"{attr} != None")
+            rr.inst(f"restore value {sig}", True, {"signal": sig, "restored_value": norm(v, 70)})
+            if not ok:
+                rr.add(finding("PAIR", sr, c, f"{sig} is restored as `{norm(v, 70)}`: the saved handler {attr} is passed through a test other than 'is it None / false', so a saved disposition that fails the test (signal.SIG_IGN is not callable) is replaced by SIG_DFL instead of being restored", construct=f"{sig} restored through a narrower test"))
     # tty signal keys
     rr.inst("tty signal keys restored", True)
     if list(calls_in(start, "tty_signal_keys")) and not list(calls_in(stop, "tty_signal_keys")):
@@ -228,6 +270,54 @@ def rule_mode_pairs(ctx: Ctx) -> RuleResult:
     calls = nodes_where(cfg, lambda s: isinstance(s, ast.Call) and callee_name(s) == "_start")
     if not sets or not calls or not all(cfg.dominated(c, sets) for c in calls):
         rr.add(finding("PAIR", bs_start, bs_start.node, "BaseScreen.start() does not mark the screen started before calling _start()", construct="_started not set before _start"))
+    return rr
+
+
+def rule_fresh_topmost(ctx: Ctx) -> RuleResult:
+    """process_input() handles a *batch* of events; a handler for one event may replace the top widget
+    (loop.widget = other, a pop-up opening).  Each event therefore goes to the widget that is topmost when the event
+    is handled: inside the batch loop the receivers of selectable() / keypress() / mouse_event() are read from self,
+    not from a local captured before the loop."""
+    from ..rules.defuse import DefUse
+
+    p = ctx.p
+    rr = RuleResult("SNAP", "C12.5", "inside the batch loop of process_input the top widget is read afresh for every event", floor=3)
+    pi = p.func(f"{ML}.process_input")
+    du = DefUse(pi)
+    cfg = du.cfg
+    loops = [h for h in cfg.nodes if h.kind == "for" and isinstance(h.ast.iter, ast.Name) and h.ast.iter.id == pi.params[1]]
+    if not loops:
+        raise AnalysisError("MainLoop.process_input: the loop over the batch of keys was not found")
+    loop = loops[0]
+    inside = {id(x) for x in ast.walk(loop.ast)}
+    n = 0
+    for node in cfg.nodes:
+        if node.ast is None or id(node.ast) not in inside and not any(id(x) in inside for x in ast.walk(node.ast)):
+            continue
+        for c in ast.walk(node.ast):
+            recv = None
+            if isinstance(c, ast.Call) and isinstance(c.func, ast.Attribute) and c.func.attr in ("keypress", "mouse_event", "selectable") and id(c) in inside:
+                recv = c.func.value
+            elif isinstance(c, ast.Call) and isinstance(c.func, ast.Name) and c.func.id == "hasattr" and c.args and id(c) in inside:
+                recv = c.args[0]
+            if recv is None:
+                continue
+            n += 1
+            rr.inst(f"{norm(c, 50)}", True, {"call": norm(c, 60), "receiver": ast.unparse(recv)} if len(rr.samples) < 5 else None)
+            for nm in [x for x in ast.walk(recv) if isinstance(x, ast.Name) and x.id != pi.self_name]:
+                outside = [dn for v, how, dn in du.reaching(nm.id, node) if dn.ast is None or id(dn.ast) not in inside]
+                if outside:
+                    rr.add(finding("SNAP", pi, c, f"`{norm(c, 50)}` uses `{nm.id}`, bound before the loop over the batch (`{norm(outside[0].stmt, 50)}`): when the handler of an earlier event of the same batch replaces the top widget, the remaining events still go to the old one", construct=f"stale receiver {nm.id} in the batch loop"))
+    # values derived from the top widget before the loop and tested inside it (handles_mouse = hasattr(topmost, ...))
+    for node in cfg.nodes:
+        if node.kind != "test" or not any(id(x) in inside for x in ast.walk(node.ast)):
+            continue
+        for nm in [x for x in ast.walk(node.ast) if isinstance(x, ast.Name)]:
+            for v, how, dn in du.reaching(nm.id, node):
+                if isinstance(v, ast.AST) and (dn.ast is None or id(dn.ast) not in inside) and "_topmost_widget" in du.text(v, dn):
+                    rr.add(finding("SNAP", pi, node.stmt, f"the test `{norm(node.ast, 50)}` uses `{nm.id}`, computed from the top widget before the loop over the batch: it describes the widget that was topmost when the batch started", construct=f"stale receiver {nm.id} in the batch loop"))
+    if n < 3:
+        raise AnalysisError("process_input: the selectable/keypress/mouse_event calls inside the batch loop were not found")
     return rr
 
 
@@ -328,6 +418,7 @@ def run(ctx: Ctx):
         rule_mode_pairs(ctx),
         c13.rule_wrap(ctx, "C12.3"),
         rule_pipeline(ctx),
+        rule_fresh_topmost(ctx),
         _carry_over(ctx),
     ]
 
@@ -337,6 +428,10 @@ from ..mutants import Mut  # noqa: E402
 _M = "urwid/event_loop/main_loop.py"
 _P = "urwid/display/_posix_raw_display.py"
 MUTANTS = [
+    Mut("twin-topmost-captured-but-unused", "urwid/event_loop/main_loop.py", "MainLoop.process_input", "        something_handled = False\n", "        something_handled = False\n        topmost = self._topmost_widget\n        del topmost\n", twin=True),
+    Mut("topmost-stale-in-batch", "urwid/event_loop/main_loop.py", "MainLoop.process_input", "        something_handled = False\n\n        for key in keys:\n            if key == \"window resize\":\n                continue\n\n            if isinstance(key, str):\n                if self._topmost_widget.selectable():\n                    if handled_key := self._topmost_widget.keypress(self.screen_size, key):", "        something_handled = False\n        topmost = self._topmost_widget\n\n        for key in keys:\n            if key == \"window resize\":\n                continue\n\n            if isinstance(key, str):\n                if topmost.selectable():\n                    if handled_key := topmost.keypress(self.screen_size, key):", "SNAP|event_loop.main_loop.MainLoop.process_input"),
+    Mut("restore-only-callable-handlers", "urwid/display/_posix_raw_display.py", "Screen.signal_restore", "self.signal_handler_setter(signal.SIGTSTP, self._prev_sigtstp_handler or signal.SIG_DFL)", "self.signal_handler_setter(signal.SIGTSTP, self._prev_sigtstp_handler if callable(self._prev_sigtstp_handler) else signal.SIG_DFL)", "PAIR|display._posix_raw_display.Screen.signal_restore"),
+    Mut("twin-restore-folded-into-loop", "urwid/display/_posix_raw_display.py", "Screen.signal_restore", "        self.signal_handler_setter(signal.SIGTSTP, self._prev_sigtstp_handler or signal.SIG_DFL)\n        self.signal_handler_setter(signal.SIGCONT, self._prev_sigcont_handler or signal.SIG_DFL)\n        self.signal_handler_setter(signal.SIGWINCH, self._prev_sigwinch_handler or signal.SIG_DFL)", "        for signum, previous in (\n            (signal.SIGTSTP, self._prev_sigtstp_handler),\n            (signal.SIGCONT, self._prev_sigcont_handler),\n            (signal.SIGWINCH, self._prev_sigwinch_handler),\n        ):\n            self.signal_handler_setter(signum, previous or signal.SIG_DFL)", twin=True),
     Mut("run-stop-only-on-exception-subclass", _M, "MainLoop._run", "        except:\n            self.screen.stop()  # clean up screen control\n            raise", "        except Exception:\n            self.screen.stop()  # clean up screen control\n            raise", "PASS|"),
     Mut("run-reraise-wrapped", _M, "MainLoop._run", "            self.screen.stop()  # clean up screen control\n            raise\n", "            self.screen.stop()  # clean up screen control\n            raise RuntimeError(\"event loop failed\")\n", "PASS|"),
     Mut("bracketed-paste-not-disabled", _P, "urwid.display._posix_raw_display.Screen._stop", "            self.write(escape.DISABLE_BRACKETED_PASTE_MODE)", "            pass", "PAIR|"),
